@@ -148,16 +148,21 @@ class LiteDRAMAXI2NativeW(Module):
             rmw_cmd_done  = Signal()
             rmw_data_done = Signal()
 
-            # Grant write when write buffer is empty.
-            self.comb += self.rmw_wgrant.eq(~w_buffer_queue & (w_buffer_level == 0))
+            # Grant write when write buffer is empty (no reserved and no still un-commanded data, so that aw is
+            # the address of the partial beat).
+            self.comb += self.rmw_wgrant.eq(~w_buffer_queue & (w_buffer_level == 0) & (w_buffer.level == 0))
 
-            # Prevent new write on Read-Modify-Write request.
-            self.comb += If(self.rmw_request,
+            # Prevent new write during a Read-Modify-Write sequence (already buffered data is still sent while
+            # waiting for the grant).
+            rmw_busy = Signal()
+            self.comb += If(rmw_busy,
                 can_write.eq(0)
             )
 
-            # Disconnect regular Datapath on a Read-Modify-Write cycle.
-            self.comb += If(self.rmw_request,
+            # Disconnect regular Datapath on a Read-Modify-Write cycle (also while the partial data still waits
+            # for its address: W can precede AW, reads are not blocked meanwhile).
+            rmw_pending = Signal()
+            self.comb += If(self.rmw_request | rmw_pending,
                 axi_w_connect.eq(0),
             )
 
@@ -169,16 +174,18 @@ class LiteDRAMAXI2NativeW(Module):
                 NextValue(rmw_data_done, 0),
                 # Detect partial data and initiate a RMW access.
                 If(axi.w.valid & (axi.w.strb != (2**len(axi.w.strb) - 1)),
+                    rmw_pending.eq(1),
                     # Before issuing the RMW sequence, we must ensure that all pending writes/reads
                     # access have been done, so issue a request and wait for grant.
-                    self.rmw_request.eq(1),
-                    If(self.rmw_rgrant & self.rmw_wgrant,
+                    self.rmw_request.eq(aw.valid),
+                    If(self.rmw_rgrant & self.rmw_wgrant & aw.valid & can_start,
                         NextState("READ")
                     )
                 )
             )
             rmw_fsm.act("READ",
                 self.rmw_request.eq(1),
+                rmw_busy.eq(1),
                 # Issue Read Cmd.
                 port.cmd.valid.eq(1),
                 port.cmd.last.eq(aw.last),
@@ -190,6 +197,7 @@ class LiteDRAMAXI2NativeW(Module):
             )
             rmw_fsm.act("MODIFY",
                 self.rmw_request.eq(1),
+                rmw_busy.eq(1),
                 # Generate mask.
                 *[rmw_mask[8*i:8*(i+1)].eq(Replicate(axi.w.strb[i], 8)) for i in range(port.data_width//8)],
                 # Receive Read Data and modify it.
@@ -202,6 +210,7 @@ class LiteDRAMAXI2NativeW(Module):
             )
             rmw_fsm.act("WRITE",
                 self.rmw_request.eq(1),
+                rmw_busy.eq(1),
                 # Isssue Write Cmd.
                 port.cmd.valid.eq(~rmw_cmd_done),
                 port.cmd.last.eq(aw.last),
